@@ -43,8 +43,17 @@ WQ = {
     "binary": ("binary(alpha=1)", "quantized_bits(4,1,1,alpha=1)"),
     "ternary": ("ternary(alpha=1)", "quantized_bits(4,1,1,alpha=1)"),
     "auto_po2": ("quantized_bits(5,1,1,alpha='auto_po2')", "quantized_bits(6,2,1,alpha=1)"),
+    # power-of-two kernels with 4 bits, without / with a max_value that is not a power of two (the quantizer rounds the
+    # exponent of the clipped value: max_value 3 -> 4, 6 -> 8); bias wide enough not to hide an integer bit
+    "po2_4": ("quantized_po2(4)", "quantized_bits(8,4,1,alpha=1)"),
+    "po2_mv3": ("quantized_po2(4,max_value=3)", "quantized_bits(8,4,1,alpha=1)"),
+    "po2_mv6": ("quantized_po2(4,max_value=6)", "quantized_bits(8,4,1,alpha=1)"),
 }
-IQ = {"q4": "quantized_bits(4,1,1)", "q3": "quantized_bits(3,0,1)", "relu": "quantized_relu(3,1)"}
+WQ_BASE = ["fixed", "fixed_narrow", "po2", "po2_bias", "binary", "ternary", "auto_po2"]
+IQ = {"q4": "quantized_bits(4,1,1)", "q3": "quantized_bits(3,0,1)", "relu": "quantized_relu(3,1)",
+      # power-of-two activations, with and without max_value: po2 x po2 products are exponent additions
+      "rpo2": "quantized_relu_po2(3)", "rpo2_mv2": "quantized_relu_po2(3,max_value=2)"}
+IQ_BASE = ["q4", "q3", "relu"]
 AQ = "quantized_relu(3,1)"
 KINDS = ["QDense", "QConv1D", "QConv2D", "QDepthwiseConv2D"]
 PATTERNS = ["grid7", "max", "min", "alternating"]
@@ -65,18 +74,21 @@ def enumerate_cases(tier, seed):
     for wq in WQ:
       for use_bias in (True, False):
         for iq in IQ:
+          if (wq not in WQ_BASE or iq not in IQ_BASE) and not (
+              wq in ("po2", "po2_4", "po2_mv3", "po2_mv6", "fixed") and (iq not in IQ_BASE or wq not in WQ_BASE)):
+            continue
           for pat in PATTERNS:
             out.append(dict(layers=[dict(kind=kind, wq=wq, use_bias=use_bias)], iq=iq, pattern=pat, _seed=seed))
   pairs = [("QConv2D", "QDense"), ("QDense", "QDense"), ("QConv2D", "QDepthwiseConv2D"), ("QDepthwiseConv2D", "QConv2D"),
            ("QConv1D", "QDense")]
   for k1, k2 in pairs:
-    for w1 in WQ:
-      for w2 in (("fixed", "po2", "ternary", "auto_po2") if tier == "quick" else WQ):
+    for w1 in WQ_BASE:
+      for w2 in (("fixed", "po2", "ternary", "auto_po2") if tier == "quick" else WQ_BASE):
         out.append(dict(layers=[dict(kind=k1, wq=w1, use_bias=True), dict(kind=k2, wq=w2, use_bias=True)],
                         iq="q4", pattern="grid7", _seed=seed))
   if tier == "thorough":
-    for w1 in WQ:
-      for w2 in WQ:
+    for w1 in WQ_BASE:
+      for w2 in WQ_BASE:
         for w3 in ("fixed", "po2", "auto_po2"):
           out.append(dict(layers=[dict(kind="QConv2D", wq=w1, use_bias=True), dict(kind="QConv2D", wq=w2, use_bias=False),
                                   dict(kind="QDense", wq=w3, use_bias=True)], iq="q3", pattern="alternating", _seed=seed))
@@ -162,8 +174,8 @@ def run_case(case):
   set_weights(model, case["pattern"], case["_seed"])
   src_q = Q.get_quantizer(IQ[case["iq"]])
   # one forward pass so that data-dependent quantizers record their scale before QTools reads it
-  in_den = qtypes.den(qtypes.make_type(("qb", 4, 1)) if case["iq"] == "q4" else (
-      qtypes.make_type(("qb", 3, 0)) if case["iq"] == "q3" else qtypes.make_type(("qr", 3, 1))))
+  from qkeras.qtools.quantized_operators import quantizer_factory  # pylint: disable=import-outside-toplevel
+  in_den = qtypes.den(quantizer_factory.QuantizerFactory().make_quantizer(src_q))
   # The product most-negative weight x most-negative input is the one product the multiplier type is excused
   # from holding (C16); when the first layer's kernel contains its type's most negative value the inputs are
   # therefore drawn from the symmetric range [-max, max].
